@@ -318,7 +318,12 @@ impl BatchSemaphoreState {
                 // Update waiter state as it is no longer in the queue
                 assert!(waiter.is_queued.swap(false, Ordering::SeqCst));
                 assert!(!waiter.has_permits.swap(true, Ordering::SeqCst));
-                ExecutionState::with(|s| {
+                // `remove_waiter` reaches this while an execution is being cleaned up (a blocked task's `Acquire` is
+                // dropped): the task list is gone then, and there is nobody to unblock.
+                let _ = ExecutionState::try_with(|s| {
+                    if s.in_cleanup() || s.try_get(waiter.task_id()).is_none() {
+                        return;
+                    }
                     let task = s.get_mut(waiter.task_id());
                     assert!(!task.finished());
                     // The acquiry is causally dependent on the event
